@@ -453,22 +453,29 @@ H_LAYOUT = [("s_recv", 1), ("s_type", 2), ("s_req", 8), ("s_value", 16), ("new_t
             ("data_req", 1), ("s_len", 16), ("s_recipient", 5), ("tx_ready", 1), ("gd_stall", 1)]
 
 
-def handler_alphabet(tier):
-    """explicit product alphabet of the handler's inputs"""
+def handler_alphabet(tier, spec=False):
+    """explicit product alphabet of the handler's inputs.  spec=True: the thinner alphabet of the specification-monitor obligation
+    (its monitor also remembers the previous cycle's setup fields, which multiplies the product states)."""
     import itertools
-    if tier == "quick":
-        types = [0, 2]; reqs = [5, 9, 6, 3]; vals = [0x01B1, 0x0100]; lens = [18]; recs = [0]
+    if spec:
+        types = [0, 2]; reqs = [5, 9, 3]; vals = [0x01B1, 0x0100] if tier == "quick" else [0x01B1, 0x0100, 0xFF4E]; lens = [0]; recs = [0]
+        nbits = 5
+    elif tier == "quick":
+        types = [0, 2]; reqs = [5, 9, 6, 3, 1, 0]; vals = [0x01B1, 0x0100]; lens = [18]; recs = [0]
+        nbits = 7
     else:
         types = [0, 1, 2]; reqs = H_REQS; vals = H_VALUES; lens = [0, 18]; recs = [0, 2]
+        nbits = 7
     letters = []
     for ty, rq, vl, ln, rc in itertools.product(types, reqs, vals, lens, recs):
-        for bits in range(128):
+        for bits in range(1 << nbits):
             c = dict(s_type=ty, s_req=rq, s_value=vl, s_len=ln, s_recipient=rc,
                      s_recv=bits & 1, new_token=(bits >> 1) & 1, status_req=(bits >> 2) & 1, ack=(bits >> 3) & 1,
                      data_req=(bits >> 4) & 1, tx_ready=(bits >> 5) & 1, gd_stall=(bits >> 6) & 1)
             letters.append(pack(H_LAYOUT, c))
+    names = "received/new_token/status_requested/ack/data_requested/tx.ready/get_descriptor.stall".split("/")[:nbits]
     desc = (f"setup.type in {types}, request in {reqs}, value in {[hex(v) for v in vals]}, length in {lens}, recipient in {recs}, "
-            f"all 128 combinations of received/new_token/status_requested/ack/data_requested/tx.ready/get_descriptor.stall")
+            f"all {1 << nbits} combinations of {'/'.join(names)}" + ("" if nbits == 7 else " (other inputs 0)"))
     return letters, desc
 
 
@@ -498,11 +505,12 @@ def obligations(targets, tier):
     obs = []
     for t in targets:
         if t.kind == "handler":
+            sletters, sdesc = handler_alphabet(tier, spec=True)
             letters, desc = handler_alphabet(tier)
-            obs.append(tie.rmon("ob_handler_spec", t, mon="hd_spec_mon", m0="dev_spec_m0", alpha_bits=0, alphabet=nl(letters), fuel=100000,
+            obs.append(tie.rmon("ob_handler_spec", t, mon="hd_spec_mon", m0="dev_spec_m0", alpha_bits=0, alphabet=nl(sletters), fuel=100000,
                                 describe="StandardRequestHandler (sliced netlist): its address/configuration write strobes are exactly the commits "
                                          "of the SPECIFICATION (pending request, armed by the status-stage answer, disarmed by any token), value = "
-                                         "wValue truncated; all traces over the alphabet: " + desc + "; environment: setup fields stable unless received"))
+                                         "wValue truncated; all traces over the alphabet: " + sdesc + "; environment: setup fields stable unless received"))
             obs.append(tie_alpha.rlock_alpha(
                 "ob_handler", t, St="hstate", mstep="hd_step", enc="h_enc", dec="h_dec", wf="(fun _ => True)",
                 dec_enc="(fun h _ => h_dec_enc h)", wf_step="(fun _ _ _ => I)", m0="h_init", wf_m0="exact I.",
